@@ -30,9 +30,12 @@ def _round_half_up(x):
     return f + 1 if x - f >= Fraction(1, 2) else f
 
 
+_ORDER = ["C"]
+
+
 def _check_copy_contract(name, fn, args, W, case, ctx, fails):
     """copy=True: argument untouched, fresh result. copy=False: result is the argument and holds the copy=True result."""
-    W1 = W.copy()
+    W1 = gen.layout(W.copy(), _ORDER[0])
     o1 = ctx.call(fn, W1, *args, copy=True)
     if o1.status == "timeout":
         return None
@@ -44,7 +47,7 @@ def _check_copy_contract(name, fn, args, W, case, ctx, fails):
         fails.append(Failure("%s:copy=True-modified-argument" % name, "argument changed", case))
     if r1 is W1 or (isinstance(r1, np.ndarray) and np.shares_memory(r1, W1)):
         fails.append(Failure("%s:copy=True-returned-argument" % name, "result aliases the argument", case))
-    W2 = W.copy()
+    W2 = gen.layout(W.copy(), _ORDER[0])
     o2 = ctx.call(fn, W2, *args, copy=False)
     if o2.ok:
         if o2.value is not W2:
@@ -54,7 +57,7 @@ def _check_copy_contract(name, fn, args, W, case, ctx, fails):
     elif o2.status != "timeout":
         fails.append(Failure("crash:%s(copy=False):%s" % (name, o2.exc_name()), repr(o2.exc), case))
     # default is copy=True
-    W3 = W.copy()
+    W3 = gen.layout(W.copy(), _ORDER[0])
     o3 = ctx.call(fn, W3, *args)
     if o3.ok and not np.array_equal(W3, W, equal_nan=True):
         fails.append(Failure("%s:default-modified-argument" % name, "argument changed with default copy flag", case))
@@ -63,10 +66,12 @@ def _check_copy_contract(name, fn, args, W, case, ctx, fails):
 
 def check(case, ctx):
     op = case["op"]
-    W = np.array(case["W"], dtype=float)
+    W = gen.layout(np.array(case["W"], dtype=float), case.get("order"))
     n = len(W)
     fails = []
     ctx.label("op:" + op)
+    _ORDER[0] = case.get("order", "C")
+    ctx.label("layout:" + _ORDER[0])
     off = ~np.eye(n, dtype=bool)
 
     if op == "proportional":
@@ -237,7 +242,7 @@ def prop_cases(draw):
         dyadic = True
     else:
         p = draw(st.sampled_from([-0.25, 1.5, -1e-9, 1.0000001]))
-    return {"op": "proportional", "W": W, "p": p, "dyadic": dyadic}
+    return {"op": "proportional", "W": W, "p": p, "dyadic": dyadic, "order": draw(st.sampled_from(gen.ORDERS))}
 
 
 @st.composite
@@ -251,7 +256,7 @@ def other_cases(draw):
         d = draw(st.lists(st.integers(-4, 4), min_size=n, max_size=n))
         for i, v in enumerate(d):
             W[i, i] = v / 8.0
-    case = {"op": op, "W": W}
+    case = {"op": op, "W": W, "order": draw(st.sampled_from(gen.ORDERS))}
     if op == "absolute":
         case["thr"] = draw(st.sampled_from([0.0, 0.125, 0.25, 0.5, 0.75, 1.0, -0.25, -0.5, 0.3, 0.6]))
     return case
@@ -284,7 +289,7 @@ def _exh_cases(tier, lo, hi):
         g, pi = divmod(k, len(_PS))
         n, d, W = sp.at(g)
         p = _PS[pi]
-        yield {"op": "proportional", "W": W, "p": p, "dyadic": pi < 17}
+        yield {"op": "proportional", "W": W, "p": p, "dyadic": pi < 17, "order": gen.ORDERS[k % len(gen.ORDERS)]}
 
 
 def units(tier):
